@@ -293,7 +293,9 @@ def find_helper(w, cls, query_func, form, pos, ili=None):
         return [cls(*data, _wordnet=w) for data in query_func(pos=pos, **scope)]
     normalize = w._normalizer
     # the lemmatizer replaces the query by what it proposes; the query itself if it proposes nothing
+    # (a part of speech proposed with an empty collection of forms proposes no (pos, form) pair)
     proposals = w.lemmatizer(form, pos) if w.lemmatizer else {}
+    proposals = {p: fs for p, fs in proposals.items() if fs}
     if not proposals:
         proposals = {pos: {form}}
     # pass 1: stored form (or stored normalized form when a normalizer is active) equals the proposal
